@@ -39,6 +39,9 @@ def corpus():
         # seeded once: a select re-fetch must not overwrite an object with pending lazy assignments
         {'cfg': {'cache': True, 'freq': 100, 'frac': 2},
          'ops': [['create', 1, [[1, 100], [0, 1]]], ['setattr', 0, 0, 3], ['select', 1, None, None], ['syncupdate', 0], ['read', 0, 0]]},
+        # fixed: an eager assignment on an expired instance re-cached one attribute, which survived the next expire()
+        {'cfg': {'cache': True, 'freq': 100, 'frac': 2},
+         'ops': [['create', 0, [[1, 100], [2, 1]]], ['expire', 0], ['setattr', 0, 2, 0], ['rawupdate', 0, 1, 2, 7], ['expire', 0], ['read', 0, 2]]},
         # second instance after expire, written through: the held one goes stale (open finding of C04)
         {'cfg': {'cache': True, 'freq': 100, 'frac': 2},
          'ops': [['create', 0, [[1, 100], [0, 1]]], ['expire', 0], ['get', 0, 1], ['read', 0, 0], ['setattr', 1, 0, 4], ['read', 0, 0]]},
@@ -134,8 +137,6 @@ def classify(case, obs, f):
     # destroyed row still handed out, a write through one of them leaves the other stale
     if f.get('purged'):
         return 'stale_after_expire_purged_identity'
-    if f.get('destroyed'):
-        return 'instance_of_destroyed_row_keeps_values'
     if f.get('assigned_while_expired'):
         return 'lazy_assignment_on_expired_object_hidden_by_reload'
     return None
